@@ -654,6 +654,80 @@ pub fn wide_batch_strategy(versions: Vec<u32>) -> BoxedStrategy<Case> {
         .boxed()
 }
 
+/// Crash engine: a small device filled to its very last block. Single-block fillers occupy all
+/// but the last r blocks, then a record of exactly r blocks takes the tail run (best fit, exact),
+/// is deleted / rewritten between flushes: journal transactions (record batches and retirements)
+/// whose extent ends exactly at the end of the device, torn multi-block writes there.
+pub fn device_end_strategy(versions: Vec<u32>) -> BoxedStrategy<Case> {
+    let nver = versions.len();
+    ((0..nver, 10u16..42, any::<bool>(), any::<bool>(), any::<bool>()), 0u8..4, 0u64..1_000_000_000_000u64, proptest::collection::vec((0u8..5, any::<u16>(), any::<bool>()), 1..5))
+        .prop_map(move |((vi, blocks, plain_io, legacy_plain_meta, ttl), rsel, t0_offset, rounds)| {
+            let version = versions[vi];
+            let cfg = Config { persistent: true, version, cache: false, ttl, dev: DevSize::Tiny(blocks), max_memory: None, plain_io, legacy_plain_meta: version < 3 && legacy_plain_meta, visible_cpus: 2 };
+            let data = blocks as usize; // DevSize::Tiny counts data blocks
+            let rmax = (data / 4).clamp(2, 5);
+            let r = 2 + (rsel as usize % (rmax - 1));
+            let fillers = data - r;
+            let n = fillers + 2;
+            let keys: Vec<Vec<u8>> = (0..n).map(|i| format!("end-{i:03}").into_bytes()).collect();
+            let small = |j: usize| ValSpec { len: LenClass::Small(20 + (j as u16 * 13) % 900), kind: ValKind::Stamp };
+            let tail_val = |d: i8| ValSpec { len: LenClass::Edge(r as u8, d), kind: ValKind::Stamp };
+            let mut ops = Vec::new();
+            for j in 0..fillers {
+                ops.push(Op::Insert { k: key_at(j, n), v: small(j), ts: TsSpec::Auto, bytes: false });
+            }
+            ops.push(Op::Flush);
+            // the tail record: exactly r blocks, ends on the last block of the device
+            ops.push(Op::Insert { k: key_at(fillers, n), v: tail_val(0), ts: TsSpec::Auto, bytes: false });
+            ops.push(Op::Flush);
+            for (what, pick, flush_between) in rounds {
+                let f = pick as usize % fillers;
+                match what {
+                    0 => {
+                        // retire the tail extent, write it again under the other tail key
+                        ops.push(Op::Delete { k: key_at(fillers, n), ts: TsSpec::Auto });
+                        if flush_between {
+                            ops.push(Op::Flush);
+                        }
+                        ops.push(Op::Insert { k: key_at(fillers + 1, n), v: tail_val(-1), ts: TsSpec::Auto, bytes: false });
+                        ops.push(Op::Flush);
+                        ops.push(Op::Delete { k: key_at(fillers + 1, n), ts: TsSpec::Auto });
+                        ops.push(Op::Flush);
+                        ops.push(Op::Insert { k: key_at(fillers, n), v: tail_val(0), ts: TsSpec::Auto, bytes: false });
+                    }
+                    1 => {
+                        // rewrite a filler in place (delete, flush, insert): the device stays full
+                        ops.push(Op::Delete { k: key_at(f, n), ts: TsSpec::Auto });
+                        ops.push(Op::Flush);
+                        ops.push(Op::Insert { k: key_at(f, n), v: small(f + 7), ts: TsSpec::Auto, bytes: false });
+                    }
+                    2 => {
+                        // tail record and a filler retired in one transaction
+                        ops.push(Op::Delete { k: key_at(fillers, n), ts: TsSpec::Auto });
+                        ops.push(Op::Delete { k: key_at(f, n), ts: TsSpec::Auto });
+                        ops.push(Op::Flush);
+                        ops.push(Op::Insert { k: key_at(fillers, n), v: tail_val(0), ts: TsSpec::Auto, bytes: false });
+                        ops.push(Op::Insert { k: key_at(f, n), v: small(f + 3), ts: TsSpec::Auto, bytes: false });
+                    }
+                    3 => {
+                        ops.push(Op::Delete { k: key_at(fillers, n), ts: TsSpec::Auto });
+                        ops.push(Op::Sleep);
+                        ops.push(Op::Insert { k: key_at(fillers, n), v: tail_val(-1), ts: TsSpec::Auto, bytes: false });
+                    }
+                    _ => {
+                        ops.push(Op::Delete { k: key_at(fillers, n), ts: TsSpec::Auto });
+                        ops.push(Op::Flush);
+                        ops.push(Op::Reopen { cache: None, ttl: None });
+                        ops.push(Op::Insert { k: key_at(fillers, n), v: tail_val(0), ts: TsSpec::Auto, bytes: false });
+                    }
+                }
+                ops.push(Op::Flush);
+            }
+            Case { cfg, keys, t0_offset, ops }
+        })
+        .boxed()
+}
+
 /// Crash engine: 2-3 keys whose values span 200-600 blocks on a 2400-block device, overwritten,
 /// deleted and TTL-updated between flushes: extents beyond one retirement write (256 blocks),
 /// multi-write marker chains, long journal replays.
